@@ -41,6 +41,8 @@ def unzigzag (n : Nat) : Int := if n % 2 = 0 then (n / 2 : Nat) else -((n / 2 : 
 def encZigZag32 (i : Int) : Bytes := encVarint (zigzag i)
 def encZigZag64 (i : Int) : Bytes := encVarint (zigzag i)
 
+def boolByte (b : Bool) : UInt8 := if b then 1 else 0
+
 /-! ### Sizes (sizeof.go) -/
 
 /-- Go `bits.Len64` -/
